@@ -279,6 +279,22 @@ def list_method(interp, lst, name, args, kwargs):
             return None
         if key is not None:
             raise Unsupported("list.sort(key=...) on plain list")
+        if lst.seq is None and not all(isinstance(x, Opaque) for x in lst.items):
+            # statically sized list of library objects / tuples: stable insertion sort using only `<` (list.sort's contract)
+            rev = ctx.branch(rv)
+            items = list(lst.items)
+            out = []
+            for x in items:
+                pos = len(out)
+                while pos > 0:
+                    a, b = (out[pos - 1], x) if rev else (x, out[pos - 1])
+                    c = yield from rich_compare(interp, ast.Lt(), a, b, None)
+                    if not ctx.branch(to_bool(ctx, c)):
+                        break
+                    pos -= 1
+                out.insert(pos, x)
+            lst.items[:] = out
+            return None
         lst.widen()
         lst.seq = sort_by(lst.seq, lst.seq, rv)
         return None
@@ -666,14 +682,18 @@ def call_builtin(interp, name, args, kwargs, site):
             m = v.cls.lookup("__len__")
             if m is not None:
                 return (yield from interp.call(m, [v], {}))
+        if isinstance(v, (Source, GenObj)):
+            raise PyRaise(ExcVal("TypeError", ident="object has no len()"))
         raise Unsupported(f"len({v!r})")
     if name == "range":
         if len(args) == 1:
             lo, hi = 0, args[0]
         elif len(args) == 2:
             lo, hi = args
+        elif all(isinstance(a, int) for a in args):
+            return NativeIter("seq", list(range(*args)))
         else:
-            raise Unsupported("range with step")
+            raise Unsupported("range with symbolic step")
         if isinstance(lo, int) and isinstance(hi, int):
             return NativeIter("seq", list(range(lo, hi)))
         return NativeIter("range", (lo, hi))
@@ -709,6 +729,9 @@ def call_builtin(interp, name, args, kwargs, site):
     if name == "zip":
         its = [native_iter(a) for a in args]
         if any(i is None for i in its):
+            if all(i is not None or isinstance(a, (Source, GenObj)) for i, a in zip(its, args)):
+                from .interp import LazyZip
+                return LazyZip([i if i is not None else a for i, a in zip(its, args)])
             raise Unsupported("zip over non-native iterables")
         if all(i.kind == "seq" for i in its):
             seqs = [(i.data.items if isinstance(i.data, SList) else i.data)[i.idx:] for i in its]
@@ -734,6 +757,10 @@ def call_builtin(interp, name, args, kwargs, site):
             if pr.exc.cls in ("StopIteration",) and len(args) > 1:
                 return args[1]
             raise
+    if name in ("min", "max", "sorted") and interp.side == "ref" and interp.frames:
+        prog = interp.frames[-1].fn.module.program
+        fn = prog.module("ref_builtins").lookup({"min": "min", "max": "max", "sorted": "sorted_"}[name])
+        return (yield from interp.call(fn, args, kwargs, site))
     if name == "id":
         return Sentinel("id")
     if name == "hash":
